@@ -4,6 +4,8 @@ Helper lemmas: `Lemmas.lean`.  Everything here is universally quantified; the `e
 are satisfiable by non-trivial inputs.
 -/
 import TornadoModel.C19.Lemmas
+import TornadoModel.C19.FilterSingle
+import TornadoModel.C19.PyCorr
 namespace TornadoModel.C19
 
 /-! ### the reader -/
@@ -129,10 +131,15 @@ theorem filter_oneline_idempotent (s : Str) :
     filterWhitespace .oneline (filterWhitespace .oneline s) = filterWhitespace .oneline s :=
   (collapse_idem isSpace (by decide) s).1
 
-/-- idempotence for the remaining mode (`single`): checked on every `filter` case of the tie (implementation and
-model), not proved. -/
-def filter_single_idempotent_goal : Prop :=
-  ∀ s, filterWhitespace .single (filterWhitespace .single s) = filterWhitespace .single s
+/-- **filter_single_idempotent**: mode `single` (`[\t ]+` → one space, then every whitespace run containing a newline →
+one newline) is idempotent.  After the first application there is no tab and no two adjacent blanks (`noBB`), so the
+first substitution is the identity; the second substitution is idempotent on every text (`nlRuns_idem`). -/
+theorem filter_single_idempotent :
+    ∀ s, filterWhitespace .single (filterWhitespace .single s) = filterWhitespace .single s := by
+  intro s
+  show nlRuns [] false (collapseRuns isBlank false (nlRuns [] false (collapseRuns isBlank false s))) = _
+  rw [collapse_noBB false _ (noBB_nlRuns [] false _ (by simpa using noBB_collapse false s))]
+  exact nlRuns_idem [] false _ (by simp) (by simp)
 
 /-- **filter_idempotent** for the modes `all` and `oneline` -/
 theorem filter_idempotent (m : Ws) (hm : m ≠ .single) (s : Str) :
@@ -140,6 +147,14 @@ theorem filter_idempotent (m : Ws) (hm : m ≠ .single) (s : Str) :
   cases m with
   | all => rfl
   | single => exact absurd rfl hm
+  | oneline => exact filter_oneline_idempotent s
+
+/-- **filter_whitespace_idempotent**: every whitespace mode is idempotent -/
+theorem filter_whitespace_idempotent (m : Ws) (s : Str) :
+    filterWhitespace m (filterWhitespace m s) = filterWhitespace m s := by
+  cases m with
+  | all => rfl
+  | single => exact filter_single_idempotent s
   | oneline => exact filter_oneline_idempotent s
 
 /-! ### the generator -/
@@ -169,8 +184,57 @@ theorem control_body_nonempty (L : Loader) (named : List Named) (f : Nat) (s : S
   simp only [W.writeHdr, W.writeAt, hw] at hs hc hl hi
   simp [W.write, W.writeAt, W.writeHdr, gen, genNode, hw, hs, hc, hl, hi]
 
-/-- stretch goal (tie only): the denotation of the generated line list under a big-step semantics of the statement
-forms the generator emits equals the interpreter's output.  Covered by the two correspondence streams. -/
+/-! ### the generated Python means what the interpreter says (`PySem.lean`, `PyEmit.lean`, `PyCorr.lean`)
+
+`pyRun : List Line → Env → Except Str (List Nat)` is a big-step semantics of the generated line list: block structure
+from indentation (`parseLines`), then `execList` over exactly the statement forms the generator emits (bytes literals are
+decoded again, `_tt_tmp` conversion/escaping lines one by one, `if/elif/else`, `for/else`, `pass`, prologue and `return`).
+Expressions, truthiness and the function pool are those of the Spec (`evalExpr`, `applyFn`). -/
+
+/-- **interp_matches_gen_structure_partial**: for every template of the fragment `frag` — text, `{{ expression }}`,
+`{% raw %}` / `{% module %}`, `{% if %}` with any number of `{% elif %}` and a final `{% else %}`, `{% for %}` over a
+finite list with an optional `{% else %}`, `{% set x = e %}`, `{% break %}`, `{% continue %}`, nested arbitrarily, under any
+whitespace mode and any autoescape function (comments, `{% whitespace %}`, `{% autoescape %}` leave no node) — the output of
+the direct interpreter is the denotation of the generated Python line list.  The side condition `stmtOK` on `set` is
+necessary: `{% set _tt_tmp = x %}{{ _tt_tmp }}` collides with the generator's own temporary.  Not covered (the remaining
+part of the goal): `import`/`from`, `while`, `try`, `apply`, `block`/`extends`/`include`. -/
+theorem interp_matches_gen_structure_partial (L : Loader) (t : FileInfo) (env : Env) (fuel : Nat) (lines : List Line)
+    (out : List Nat) (hfrag : frag .plain t.body = true) (hgen : generatePython L fuel t = .ok lines)
+    (hr : render L fuel t env = .ok out) : pyRun lines env = .ok out := by
+  rw [← hr]
+  exact pyRun_render L t env fuel lines hfrag hgen (by rw [hr]; simp) (by rw [hr]; simp)
+
+/-- **interp_matches_gen_outcome_partial**: on the same fragment also the exceptions agree (`NameError` of an unbound
+name, in the same place and with the same output so far discarded), whenever the interpreter's outcome is defined by
+the template language: not `Fuel` (the interpreter's own fuel) and not `Unsupported` (outside the Spec's expression pool). -/
+theorem interp_matches_gen_outcome_partial (L : Loader) (t : FileInfo) (env : Env) (fuel : Nat) (lines : List Line)
+    (hfrag : frag .plain t.body = true) (hgen : generatePython L fuel t = .ok lines)
+    (hF : render L fuel t env ≠ .error (/-"Fuel"-/ [70, 117, 101, 108] : List Nat))
+    (hU : render L fuel t env ≠ .error (/-"Unsupported"-/ [85, 110, 115, 117, 112, 112, 111, 114, 116, 101, 100] : List Nat)) :
+    pyRun lines env = render L fuel t env :=
+  pyRun_render L t env fuel lines hfrag hgen hF hU
+
+/-- **parse_flat_roundtrip**: the block structure of every statement tree is recovered from its lines (indentation and
+header flags determine the tree) -/
+theorem parse_flat_roundtrip (tree : List PStmt) : parseLines (flatList 0 tree) = some tree := parseLines_flat tree
+
+/-- **bytes_literal_roundtrip**: decoding the `repr(bytes)` literal the generator writes gives the bytes back -/
+theorem bytes_literal_roundtrip (bs : List Nat) (st : PS) (mode : Mode) :
+    execSimple mode ((/-"_tt_append("-/ [95, 116, 116, 95, 97, 112, 112, 101, 110, 100, 40] : List Nat) ++ reprBytes bs ++ (/-")"-/ [41] : List Nat)) st
+      = (({ st with buf := st.buf ++ bs }, .normal), .none) := execSimple_lit mode bs st
+
+-- non-vacuity: `a\n{{ x }}{% if x %}b{% else %}c{% end %}{% for y in l %}{% raw y %}{% else %}d{% end %}` with autoescape
+-- `xhtml_escape`, x = "<", l = [1, b"&"]: in the fragment, generates 25 lines, renders `a\n&lt;b1&d`
+example : frag .plain exT.body = true := by simp [exT, frag, partitionSp]
+example : ∃ lines, generatePython [exT] 12 exT = .ok lines ∧ lines.length = 25 := ⟨_, rfl, rfl⟩
+example : render [exT] 12 exT exEnv = .ok [97, 10, 38, 108, 116, 59, 98, 49, 38, 100] := by rfl
+-- an exception outcome covered by `interp_matches_gen_outcome_partial`: the unbound `x`
+example : render [exT] 12 exT [] = .error (/-"NameError"-/ [78, 97, 109, 101, 69, 114, 114, 111, 114] : List Nat) := by rfl
+
+/-- the stretch goal as it was first stated.  NOTE: with the semantics existentially quantified *inside* the statement it
+is weak (any constant function is a witness); the content is in `interp_matches_gen_structure_partial`, which fixes
+`sem := pyRun`.  What remains open (tie only, covered by the two correspondence streams) is the extension of `pyRun`
+and of the proof to `apply`, `block`/`extends`/`include`, `while`, `try`, `import`. -/
 def interp_matches_gen_structure_goal : Prop :=
   ∀ (L : Loader) (t : FileInfo) (env : Env) (fuel : Nat) (lines : List Line) (out : List Nat),
     generatePython L fuel t = .ok lines → render L fuel t env = .ok out →
